@@ -76,7 +76,9 @@ def header_fingerprint(extra_dirs=()):
     files.sort()
     h = hashlib.sha256()
     for f in files:
-        h.update(f.encode())
+        # relative names: the same tree under another root (a scratch worktree) hashes the same
+        rel = os.path.relpath(f, REPO) if f.startswith(REPO + os.sep) else os.path.relpath(f, ROOT)
+        h.update(rel.encode())
         h.update(file_sha(f).encode())
     _hdr_fp[key] = h.hexdigest()
     return _hdr_fp[key]
@@ -127,7 +129,7 @@ def build_lib(variant):
     todo, objs = [], []
     for s in srcs:
         path = os.path.join(REPO, s)
-        key = sha(file_sha(path), hfp, v["cxx"], " ".join(flags))[:32]
+        key = sha(file_sha(path), hfp, v["cxx"], " ".join(flags).replace(REPO, "<repo>"))[:32]
         obj = os.path.join(objdir, s.replace("/", "_") + "." + key + ".o")
         objs.append(obj)
         if not os.path.exists(obj):
@@ -144,10 +146,13 @@ def build_lib(variant):
                     errs.append(str(e))
             if errs:
                 raise BuildError("\n".join(errs[:3]))
-        # drop stale objects of the same sources
+        # drop stale objects (older than a day, or beyond 600 files) - several trees (e.g. /repo and a scratch worktree with a
+        # seeded change) may share the cache
+        import time as _t
         keep = set(objs)
-        for f in glob.glob(os.path.join(objdir, "*.o")):
-            if f not in keep:
+        others = sorted((f for f in glob.glob(os.path.join(objdir, "*.o")) if f not in keep), key=os.path.getmtime)
+        for i, f in enumerate(others):
+            if len(others) - i > 600 or _t.time() - os.path.getmtime(f) > 86400:
                 try:
                     os.unlink(f)
                 except OSError:
@@ -180,7 +185,7 @@ def build_harness(name, sources, variant, extra_flags=(), libs=("-lrapidcheck", 
     objs, todo = [], []
     for s in srcs:
         path = os.path.join(hdir, s)
-        key = sha(file_sha(path), hfp, v["cxx"], " ".join(flags))[:32]
+        key = sha(file_sha(path), hfp, v["cxx"], " ".join(flags).replace(REPO, "<repo>"))[:32]
         obj = os.path.join(BUILD, variant, "hobj", s.replace("/", "_") + "." + key + ".o")
         objs.append(obj)
         if not os.path.exists(obj):
